@@ -7,6 +7,8 @@ Inductive sop :=
 | SOpen (m : omode)            (* io.open(path, mode): the new handle gets the next index *)
 | SOp (i : nat) (o : op)       (* a method of handle i *)
 | SSnap                        (* the harness reads the file's bytes *)
+| SCloseAll                    (* LState.Close: every handle still open is flushed and closed *)
+| SStdClose                    (* io.stdout:close() / io.stderr:close(): refused, nothing happens *)
 | SIoLines.                    (* for l in io.lines(path): all lines through a fresh handle *)
 
 Fixpoint upd_nth {A} (l : list A) (i : nat) (x : A) : list A :=
@@ -30,6 +32,14 @@ Definition isys_step (st : bytes * list ihandle) (o : sop) : bytes * list ihandl
     | Some h => let '(d', h', r) := istep ch disk h o' in (d', upd_nth hs i h', r)
     end
   | SSnap => (disk, hs, RBytes disk)
+  | SStdClose => (disk, hs, RFail)
+  | SCloseAll =>
+    let (d', hs') := fold_left (fun (st : bytes * list ihandle) h =>
+                                  let (d, acc) := st in
+                                  if i_closed h then (d, acc ++ [h])
+                                  else let '(d1, h1, _) := istep ch d h OClose in (d1, acc ++ [h1]))
+                               hs (disk, []) in
+    (d', hs', RTrue)
   | SIoLines =>
     let (d', h) := i_open MR disk in
     let (_, r) := ilines ch d' h (S (length d')) [] in (disk, hs, r)
@@ -53,6 +63,13 @@ Definition ssys_step (crlf : bool) (st : bytes * list shandle) (o : sop) : bytes
     | Some h => let '(c', h', r) := sstep crlf c h o' in (c', upd_nth hs i h', r)
     end
   | SSnap => (c, hs, RBytes c)
+  | SStdClose => (c, hs, RFail)
+  | SCloseAll =>
+    let (c', hs') := fold_left (fun (st : bytes * list shandle) h =>
+                                  let (d, acc) := st in
+                                  let '(d1, h1, _) := sstep crlf d h OClose in (d1, acc ++ [h1]))
+                               hs (c, []) in
+    (c', hs', RTrue)
   | SIoLines => let (l, _) := s_lines crlf c 0 (S (length c)) [] in (c, hs, RVals l)
   end.
 
@@ -151,6 +168,8 @@ Definition disc_sys_step (ts : list trk) (o : sop) : option (list trk) :=
     else None
   | SIoLines => if forallb synced ts then Some ts else None
   | SSnap => Some ts
+  | SStdClose => Some ts
+  | SCloseAll => Some (map (fun _ => mkT false LNone false) ts)
   | SOp i o' =>
     match nth_error ts i with
     | None => None
